@@ -134,20 +134,37 @@ structure TS where
   started : List Nat := []         -- run_forever's local `started_blocks`
   startOk : Bool := false          -- run_forever's local `start_ok`
   simulated : Bool := false        -- `_simulate()` was entered
+  cancelAt : Nat → Bool := fun _ => false
+                                   -- the environment's choice per await of a coroutine that runs in a CALLER's task
+                                   -- (wait_init, shutdown, _check_started, run): true = the caller's task is cancelled
+                                   -- while it is suspended at its k-th await, which then raises CancelledError
 
 /-- an `await`: the environment runs (`env k` for the k-th await), the await is logged -/
 def TS.await (env : Nat → St → St) (a : Aw) (s : TS) : TS :=
   { s with st := env s.log.length s.st, log := s.log ++ [(a, s.handler)] }
 
+/-- the exception with which a cancelled await ends: a bare `task.cancel()` of the caller's task -/
+def callerCancelled : PyExc := .err (.cancelled 0)
+
+/-- an `await` in a caller's task as a primitive: the environment runs, then the await returns -- or, when the
+    environment cancelled the caller meanwhile (`cancelAt`), raises CancelledError -/
+def awaitM {ρ : Type} (env : Nat → St → St) (a : Aw) : M TS PyExc ρ Unit := fun s =>
+  (s.await env a, if s.cancelAt s.log.length then .raise callerCancelled else .next ())
+
 /-- `Circuit.abort(exc)` = the model's `St.abort`; the call is logged as a delivery -/
 def abortP (x : PyExc) : M TS PyExc ρ Unit := fun s =>
   ({ s with st := s.st.abort x.toErr, dels := s.dels ++ [x.toErr] }, .next ())
 
-/-- awaiting the simulation task: it ends with `raise self._error` (the model's `runForeverRaises`) -/
+/-- awaiting the simulation task: it ends with `raise self._error` (the model's `runForeverRaises`).  When the
+    CALLER is cancelled while it awaits the task directly (`await task`), asyncio forwards the cancellation to the
+    awaited task -- the model's `rawCancel` -- and the await raises CancelledError -/
 def awaitSim (env : Nat → St → St) (a : Aw) : M TS PyExc ρ Unit := fun s =>
-  match runForeverRaises (s.await env a).st with
-  | some e => (s.await env a, .raise (.err e))
-  | none => (s.await env a, .next ())
+  if s.cancelAt s.log.length then
+    ({ s.await env a with st := (step (s.await env a).st .rawCancel).1 }, .raise callerCancelled)
+  else
+    match runForeverRaises (s.await env a).st with
+    | some e => (s.await env a, .raise (.err e))
+    | none => (s.await env a, .next ())
 
 /-- a CALL of a translated function from another translated function: `return v` ends the call, not the caller -/
 def callFn {ρ ρ' : Type} (m : M TS PyExc ρ Unit) : M TS PyExc ρ' Unit := fun s =>
@@ -162,7 +179,7 @@ def callFn {ρ ρ' : Type} (m : M TS PyExc ρ Unit) : M TS PyExc ρ' Unit := fun
 @[reducible] def csPrims (env : Nat → St → St) : TrE.CheckStartedPrims TS PyExc where
   mkExc := mkExc
   simtask s := if s.st.phase == .notStarted then none else some ()
-  sleep0 := fun s => (s.await env .yield, .next ())
+  sleep0 := awaitM env .yield
 
 /-- `cur`: the caller is the simulation task itself -/
 @[reducible] def sdPrims (env : Nat → St → St) (cur : Bool) : TrE.ShutdownPrims TS PyExc where
@@ -181,7 +198,7 @@ def callFn {ρ ρ' : Type} (m : M TS PyExc ρ Unit) : M TS PyExc ρ' Unit := fun
     match s.initDone with
     | none => (s, .raise .attributeError)            -- evaluating `self._init_done` fails
     | some _ => ({ s with waiter := some true }, .next ())
-  waitFirst _ := fun s => (s.await env .waitInit, .next ())
+  waitFirst _ := awaitM env .waitInit       -- `asyncio.wait` does not cancel the tasks it waits for
   cancelWaiter _ := fun s => ({ s with waiter := some false }, .next ())
   simtaskDone s := s.st.phase == .done
   simtaskCancelled s := match s.st.error with | some e => e.isCancel | none => false
@@ -232,13 +249,14 @@ def taskDone (s : TS) : Tk → Bool
   createSupTasks cs := M.pure ((List.range cs.length).map .sup)
   -- after `asyncio.wait` the yield is the model's wake entry `runAbort`
   sleep0 := fun s =>
-    ((if s.waited then { s with st := s.st.addWake .runAbort } else s).await env .yield, .next ())
+    awaitM env .yield (if s.waited then { s with st := s.st.addWake .runAbort } else s)
   taskDone := taskDone
   taskResult t := fun s =>
     match t with
     | .sim => (match runForeverRaises s.st with | some e => (s, .raise (.err e)) | none => (s, .next ()))
     | .sup _ => (s, .next ())
-  waitFirst _ := fun s => ({ s.await env .wait with waited := true }, .next ())
+  waitFirst _ := fun s =>
+    ({ s.await env .wait with waited := true }, if s.cancelAt s.log.length then .raise callerCancelled else .next ())
   -- cancelling the simulation task directly is the model's `rawCancel`; a supporting task is outside the model
   cancelTask t := fun s =>
     ({ s with cancelled := s.cancelled ++ [t]
